@@ -602,7 +602,7 @@ func execC07(line string, oracle bool) string {
 		return execK1(w, oracle)
 	case "vc":
 		return execVc(line, oracle)
-	case "sx":
+	case "sx", "sxf":
 		return execSx(line, oracle)
 	case "vt":
 		res, ver := execVt(line, oracle)
@@ -1126,6 +1126,13 @@ func genC07(tier string, rng *xvlib.Rng, run func(string, bool)) {
 	for i := 0; i < 3; i++ {
 		run(fmt.Sprintf("conc %d %d %d", rng.Intn(1<<30), 12, map[bool]int{false: 150, true: 2000}[thorough]), true)
 	}
+	for i := 0; i < 3; i++ {
+		// the same without barriers: several goroutines per core, each walking all objects, forced preemption (conc.go)
+		it := map[bool]int{false: 60, true: 600}[thorough]
+		for _, cfg := range []string{"12 %d w=64 big=4096 gc=1", "12 %d w=128 big=0 gc=1 ver=12", "16 %d w=48 big=20000 gc=0 ver=12", "12 %d w=32 big=0 gc=0 ver=21"} {
+			run(fmt.Sprintf("conc %d "+cfg, rng.Intn(1<<30), it), true)
+		}
+	}
 	// 1. pre-images: extracted schemas against the real hashes (all versions); Lean bytes against the schema bytes (v3)
 	nPre := 600
 	if thorough {
@@ -1227,6 +1234,7 @@ func genC07(tier string, rng *xvlib.Rng, run func(string, bool)) {
 	genVc(thorough, rng, run)
 	// 5. the admission entry: {signature form} x {initiator kind} x {signers} x {owner kinds} x {invocation}
 	genSx(thorough, rng, run)
+	genSxf(thorough, rng, run)
 	out.Stats.Exhaustive = false
 	out.Stats.Rule = fmt.Sprintf("d3/i3/d1: %d random transactions per encoder (all fields, empty/nil variants, versions 3,4,100 / 1,2), extracted schema bytes double-SHA-256 checked against MakeTxDigestHash and MakeTransactionID; vt: accepted transactions of 6 forms (address initiator, 2 extra signers, 2 pure co-signers with an initiator that owns nothing, account-owned input via ACL, account initiator, aggregated XuperSign) × versions 3,2,1 × every single-field mutation reached by walking the %d leaf paths of the Transaction message (flip/truncate/append/clear, +1, toggle, map key), list grow/drop/dup/swap, signature by another key / with another public key / replayed from another transaction / swapped, signer and owner replaced — each once with the old txid kept and once with the txid recomputed —, plus re-signed variants (the signers sign again) whose spent output belongs to an address/account that did not sign — through the real State.VerifyTx; signature slots also receive a valid entry of another signer of the same transaction, and the signer list is edited after signing together with its signature slots (newcomer with its own signature appended / prepended, entry removed with its signature, replaced, account prefix, swap, initiator replaced); vc: correctly signed transactions carrying $xvvault.withdraw (payer = contract | initiator; 1–3 payer outputs, 1–3 transfers, change, own input alongside; 4 signer sets; versions 3, 1) × every tamper of the owner of a spent output / the declared contract inputs / the payments / the request (forged view, riding-along outputs with fresh / same-txid / same-offset / same reference, declared set dropped / extended / reordered / not in the tx, payments redirected / raised / dropped, request amount / payer changed) and random pairs of them, judged on content; sx: a structurally described transaction through the real State.VerifyTx and Chain.SubmitTx of a real node (both results of VerifyTx, SubmitTx's error and the pool observed): {per-signer | aggregated form x scheme of the signature in the XuperSign slot: multi-signature, ECDSA raw / wrapped, Schnorr, ring} x {address | account | rule-less account initiator, signed for by its key / a stranger / both / nobody} x 12 signer lists x 10 owner lists (address, account, rule-less account, pairs, repeated) x 9 invocations (none, harmless call, guarded method, SetAccountAcl own / foreign, NewAccount, SetMethodAcl owned / foreign / without owner entry) - quick: about half of the product, thorough: all -, every single signature fault on top (entry spoiled / by another key / dropped; aggregate by other keys / missing / with one more key / a listed key not signing; one key signing alone in every scheme, spending what the non-signing listed address and its account own), all of it again on a chain whose funding transaction the operator marked and under version 1; judged on content; distinct by op line", nPre, len(schemas.TxFields))
 	out.Stats.Notes = append(out.Stats.Notes,
